@@ -81,6 +81,41 @@ def build_constants(iso3, options):
     return r.set_depending_on_option(copy.deepcopy(options), country_data=row)
 
 
+def extreme_rows():
+    """the extremes of the input table (absolute thresholds and tolerances bite there): the three smallest populations, the two smallest
+    crop producers and the largest population"""
+    t = country_table()
+    by_pop = t.sort_values("population")["iso3"].tolist()
+    by_crop = t.sort_values("crop_kcals")["iso3"].tolist()
+    return list(dict.fromkeys(by_pop[:3] + by_crop[:2] + by_pop[-1:]))
+
+
+def extreme_cases(thresholds=(None,)):
+    """(iso3, options): every extreme row under a scenario in which feed, biofuel, meat and resilient foods all matter"""
+    nw = dict(crop_disruption="country_nuclear_winter", grasses="country_nuclear_winter", fish="nuclear_winter")
+    out = []
+    for iso in extreme_rows():
+        for T in thresholds:
+            o = dict(BASELINE_COUNTRY, scenario="all_resilient_foods", shutoff="long_delayed_shutoff", **nw)
+            if T is not None:
+                o["MINIMUM_PERCENT_FED_BEFORE_NONHUMAN_CONSUMPTION_ALLOWED"] = T
+            out.append((iso, o))
+    return out
+
+
+def run_fixed(ctx, cases, fn):
+    """run fn(iso3, options, k) for this shard's share of a fixed case list, collecting violations"""
+    from vlib.harness import Violation
+    for k, (iso, o) in enumerate(cases):
+        if k % ctx.nshards != ctx.shard:
+            continue
+        ctx.event("extreme_row_fixed_run")
+        try:
+            fn(iso, o, k)
+        except Violation as v:
+            ctx.record_violation(v)
+
+
 def first_round(iso3, options):
     from src.optimizer.parameters import Parameters
     cp, tcp, loader = build_constants(iso3, options)
